@@ -30,6 +30,14 @@ cast(struct expr *expr)
 	}
 }
 
+static bool
+istrue(struct expr *expr)
+{
+	if (expr->type->prop & PROPFLOAT)
+		return expr->u.constant.f != 0;
+	return expr->u.constant.u != 0;
+}
+
 static void
 unary(struct expr *expr, enum tokenkind op, struct expr *l)
 {
@@ -218,13 +226,18 @@ eval(struct expr *expr)
 			}
 			break;
 		case TLOR:
-			if (l->kind != EXPRCONST)
-				break;
-			return l->u.constant.u ? l : r;
 		case TLAND:
+			/* the result is 0 or 1; the right operand only matters if the left one doesn't decide */
 			if (l->kind != EXPRCONST)
 				break;
-			return l->u.constant.u ? r : l;
+			if (istrue(l) == (expr->op == TLAND)) {
+				if (r->kind != EXPRCONST)
+					break;
+				l = r;
+			}
+			expr->kind = EXPRCONST;
+			expr->u.constant.u = istrue(l);
+			break;
 		default:
 			if (l->kind != EXPRCONST || r->kind != EXPRCONST)
 				break;
